@@ -74,3 +74,7 @@ Definition expect_kw (tp tf : ty) (dflt : list val) (sel base basef : list Z) (c
 Definition expect_retd (t : ty) (dv : val) (base : list Z) (cs : list corr) : list string :=
   map (fun c => let p := apply_c c base in
                 outcome t base (if zlen p =? 0 then Some dv else accept_ret t p)) cs.
+
+(* constructor arguments: data = init code ++ corrupted arguments, base = |init code| *)
+Definition expect_ctor (t : ty) (code base : list Z) (cs : list corr) : list string :=
+  map (fun c => outcome t base (accept_ctor t code (apply_c c base))) cs.
